@@ -62,6 +62,63 @@ def probe_tables(names):
     return loadable, fmt
 
 
+OTHER_EXPR = "<math><mrow><mi>x</mi><mo>=</mo><mfrac><mn>1</mn><mn>2</mn></mfrac></mrow></math>"
+
+
+def other_calls(rng=None):
+    """every call of the interface that is not a setter of preferences (what it returns does not matter here); the navigation
+    commands ToggleZoomLockUp / ToggleZoomLockDown / ToggleSpeakMode are setters: changing NavMode / Overview is what they are for"""
+    calls = [["get_spoken_text"], ["get_braille", ""], ["v_get_braille_norm", "ID-2"], ["get_overview_text"], ["get_navigation_mathml"], ["get_navigation_mathml_id"],
+             ["get_navigation_braille"], ["get_braille_position"], ["get_version"], ["get_preference", "Language"], ["get_preference", "NoSuch"]]
+    calls += [["do_navigate_command", c] for c in ("ZoomIn", "MoveNext", "ReadCurrent", "DescribeCurrent", "WhereAmI", "SetPlacemarker1", "MoveTo1", "MoveLastLocation", "Junk")]
+    calls += [["do_navigate_keypress", k, sh, ct, False, False] for k in (39, 40, 13, 49, 200) for sh, ct in ((False, False), (True, True))]
+    calls += [["get_navigation_node_from_braille_position", p] for p in (0, 1, 2, 5, 6, 7, 9, 20, 200, 10 ** 6)]
+    calls += [["v_set_navigation_node_norm", "ID-3", 0], ["set_navigation_node", "nope", 0], ["set_mathml", "<math><mi>y</mi></math>"], ["set_mathml", "<math><mi>"]]
+    return calls if rng is None else rng.choice(calls)
+
+
+def untouched_oracle(res, dump):
+    """a call that is not set_preference / set_rules_dir leaves every preference as it is: for every documented value of
+    every preference with documented values (and a few values of the others) both maps are dumped before and after each
+    other call of the interface"""
+    opts = C.pref_options()
+    pairs = [(k, v) for k, vs in sorted(opts.items()) for v in vs]
+    pairs += [("BrailleNavHighlight", v) for v in ("Off", "FirstChar", "EndPoints", "All")] + [("MathRate", "80"), ("PauseFactor", "150"), ("Bookmark", "true"), ("TTS", "SSML"),
+                                                                                               ("BrailleCode", "UEB"), ("BrailleCode", "LaTeX"), ("Language", "sv"), ("DecimalSeparator", ",")]
+    if res.tier == "quick":
+        rng = random.Random(res.seed * 31 + 12)
+        keep = [p for p in pairs if p[0] in ("BrailleNavHighlight", "BrailleCode", "TTS", "Language")]
+        pairs = keep + rng.sample([p for p in pairs if p not in keep], min(20, len(pairs) - len(keep)))
+    calls = other_calls()
+    sessions = []
+    for i, (k, v) in enumerate(pairs):
+        ops = [["set_rules_dir", C.RULES], ["set_preference", k, v], ["set_mathml", OTHER_EXPR], ["v_prefs_dump"]]
+        for c in calls:
+            ops += [c, ["v_prefs_dump"]]
+        sessions.append({"id": i, "ops": ops})
+    out = C.run_harness(sessions)
+    nv = 0
+    for (k, v), s, r in zip(pairs, sessions, out):
+        rs = r.get("res", [])
+        if len(rs) != len(s["ops"]) or "ok" not in rs[1] or "ok" not in rs[3]:
+            continue
+        before = rs[3]["ok"]
+        for j, c in enumerate(calls):
+            after = rs[5 + 2 * j]
+            res.add_case(("untouched", k, v, json.dumps(c)), nontrivial=True)
+            if "ok" not in after:
+                continue
+            if after["ok"] != before:
+                diff = [(a, b) for a, b in zip(before, after["ok"]) if a != b][:3]
+                res.violation("with %s=%s, the call %s changes preferences: %r" % (k, v, json.dumps(c), diff),
+                              {"kind": "untouched", "ops": s["ops"][:5 + 2 * j + 1], "pref": [k, v], "call": c, "before": before})
+                nv += 1
+                break
+        if nv >= 3:
+            break
+    return nv
+
+
 def gen_history(rng, dump, float_names, length):
     names = [k for _, k, _, _ in dump]
     kinds = {}
@@ -73,7 +130,7 @@ def gen_history(rng, dump, float_names, length):
     for _ in range(length):
         r = rng.random()
         if r < 0.12:
-            steps.append(("other",))
+            steps.append(("other", other_calls(rng)))
             continue
         prev = [s for s in steps if s[0] == "set"][-3:]
         if prev and rng.random() < 0.35:
@@ -117,8 +174,8 @@ def run_histories(histories):
                 ops.append(["set_preference", s[1], s[2]])
                 ops.append(["get_preference", s[1]])
             else:
-                ops.append(["set_mathml", "<math><mn>1</mn></math>"])
-                ops.append(["get_spoken_text"])
+                ops.append(["set_mathml", OTHER_EXPR])
+                ops.append(s[1] if len(s) > 1 else ["get_spoken_text"])
         ops.append(["v_prefs_dump"])
         sessions.append({"id": i, "ops": ops})
     return C.run_harness(sessions)
@@ -322,11 +379,12 @@ def run(res):
     dump, float_names, obs = generate(res)
 
     def on_broken(log):
-        return property_oracle(res, dump, float_names, obs) + in_force_oracle(res, float_names) > 0
+        return property_oracle(res, dump, float_names, obs) + in_force_oracle(res, float_names) + untouched_oracle(res, dump) > 0
     proved = C.check_proofs(res, "C12", ["Props/C12.vo", "Tie/C12Tie.vo"], "Props/C12.v", search=on_broken)
     if proved:
         property_oracle(res, dump, float_names, obs)
         in_force_oracle(res, float_names)
+        untouched_oracle(res, dump)
     res.trusted += ["Rust f64 parse/Display (oracle fmt_float, probed on the library for the values used)",
                     "rule-file lookup (oracle can_load, probed on the library); partial updates of file paths when a lookup fails half-way are not modelled"]
     res.assumptions += ["'affects only the outputs it is documented to affect' is not modelled (needs the rule files); exercised only through the rejected-call probes"]
@@ -334,6 +392,12 @@ def run(res):
 
 def replay(path):
     rep = json.load(open(path, encoding="utf-8"))
+    if rep.get("kind") == "untouched":
+        C.build_harness()
+        after = C.one_session(rep["ops"][1:] + [["v_prefs_dump"]])["res"][-1].get("ok")
+        diff = [(a, b) for a, b in zip(rep["before"], after or []) if a != b]
+        print("preferences changed by %s: %r" % (rep["call"], diff[:5]))
+        return 1 if diff else 0
     ok, log = C.build_harness()
     if not ok:
         print("harness build failed", log)
